@@ -20,6 +20,8 @@ import LianVerif.Drv.Table
 import LianVerif.Drv.BlockView
 import LianVerif.Drv.Workspace
 import LianVerif.Drv.EntryPoints
+import LianVerif.Drv.PyImportPre
+import LianVerif.Drv.Meta
 
 open Lean LianVerif.Drv
 
@@ -46,6 +48,8 @@ def dispatch (j : Json) : Except String Json := do
   | "blockview" => LianVerif.Drv.BlockView.handle j
   | "workspace" => LianVerif.Drv.Workspace.handle j
   | "entrypoints" => LianVerif.Drv.EntryPoints.handle j
+  | "pyimportpre" => LianVerif.Drv.PyImportPre.handle j
+  | "meta" => LianVerif.Drv.Meta.handle j
   | _ => throw s!"unknown model {m}"
 
 partial def loop (hin hout : IO.FS.Stream) : IO Unit := do
